@@ -1005,6 +1005,18 @@ func StressFixed(kind string, n int, sel bool) *m.Expr {
 			c = m.Infix(">", lit(1), lit(2))
 		}
 		return m.Infix("+", m.Group(m.Tern(c, arm(0), arm(1))), m.Group(m.Tern(m.Prefix("!", m.Group(c.Clone())), arm(2), m.Infix("+", arm(3), lit(1)))))
+	case "long-then":
+		// a conditional whose selected arm is one long left-nested sum (4 bytes of code per term)
+		e := m.Lit("num", "1")
+		for i := 1; i < n; i++ {
+			e = m.Infix("+", e, m.Lit("num", "1"))
+		}
+		c := "true"
+		if sel {
+			c = "false"
+			return m.Tern(m.Lit("bool", c), m.Lit("num", "0"), e)
+		}
+		return m.Tern(m.Lit("bool", c), e, m.Lit("num", "0"))
 	case "nested-thunks":
 		e := lit(7)
 		for i := 0; i < n; i++ {
